@@ -68,7 +68,10 @@ def run_case(ctx, case):
     ctx.begin_case(case)
     nrx, ncols, dt, t0 = case["nrx"], case["ncols"], Fraction(case["dt"]), Fraction(case["t0"])
     py_seed_random(case["seed"])
-    real = [ArrayDelayQueue(np.zeros((nrx, ncols)), float(dt), float(t0))]
+    # the constructor keeps the array it is given: C-ordered zeros, a transposed (slots x reactions) array, or a slice of a
+    # wider array (which of the three follows from the case's seed)
+    backing = [np.zeros((nrx, ncols)), np.zeros((ncols, nrx)).T, np.zeros((nrx, ncols + 3))[:, :ncols]][case["seed"] % 3]
+    real = [ArrayDelayQueue(backing, float(dt), float(t0))]
     ref = [RefQueue(nrx, ncols, dt, t0)]
     part_of = {}           # index of partition children -> parent snapshot (ref)
     outs_real, fails = [], []
